@@ -72,7 +72,7 @@ class C16(Check):
             cnt.append(z3.Sum([z3.If(z3.Or(R(Th[i, j]) > thr, R(Th[i, j]) < -thr), 1, 0)
                                for i in range(n) for j in range(n)]))
             tr = rsum([R(Th[i, j]) * R(S[j, i]) for i in range(n) for j in range(n)])
-            ll.append(core.LOG(R(stubs.det_exact(Th))) - tr)
+            ll.append(core.log_term(R(stubs.det_exact(Th))) - tr)
         pcnt = z3.Sum([cnt[k] for k in runs_of(labs)] + [z3.IntVal(0)])
         want = z3.ToReal(pcnt) * core._const_real(math.log(T)) - 2 * rsum(ll)
         c.prove('bic_matches_definition', z3.And(R(res) == want, states.intact(st, fz)))
